@@ -34,6 +34,24 @@ CHECKS = {
     "C20": ("every closed assignment of a base schema's declarations to {main, m1, m2} x topology star/chain x path depth x mod position on a real file tree vs the single-file parse; every injected module error must be an Err naming the module",
             "cross-file declaration order is not judged, only per-category multisets", "exhaustive enumeration of module splits, differential oracle"),
 }
+CHECKS.update({
+    "C03": ("struct shapes (type trees to depth 2/3 x offsets, widths 1..64 in thorough, enums up to 16 bits) and schema-level programs (services with every input/output pairing, several protocols, renamed and double bindings) given to the real fcp_cpp generator, compiled with g++ -std=c++17 with a generic JSON harness; EncodeJson == reference bytes, DecodeJson(reference bytes) == value",
+            "g++ 12 decides 'compiles'; finite floats over JSON; reference codec pinned by project vectors", "explicit-state enumeration of generator inputs, compiled and executed against a reference model"),
+    "C05": ("CAN schemas (1..3-field messages <= 64 bits over all fixed-size kinds, big-endian subsets, mux subsets and counts, units at every level, 1..3 bindings over 3 buses) through the real fcp_dbc generator; own DBC reader vs reference layout + geometry; cantools decodes every reference-packed boundary frame",
+            "cantools is the independent decoder; big-endian only on byte-aligned 8/16/32/64-bit fields", "explicit-state enumeration against a reference layout + independent decoder"),
+    "C06": ("every flat CAN message of 1..3 signals (4 in thorough) over {u/i 1,5,8,12,16,24,32,33,64, f32, f64, enums} <= 64 bits + directed 5..8-signal messages through the real fcp_can_c generator, gcc, generated main(): frame id/dlc/data == reference packing, decode(encode(v)) == v",
+            "gcc 12; -0.0 and NaN excluded (runtime applies scale*x+offset)", "explicit-state enumeration of generator inputs, compiled and executed against a reference model"),
+    "C13": ("C03's struct space in the same harness: the reflection binary produced by the Python tool is loaded with LoadBinarySchema and the dynamic codec's bytes/values are compared with the static codec's for every boundary value",
+            "runs only where the reflection binary round-trips (C12)", "explicit-state enumeration, differential oracle (static vs dynamic codec)"),
+    "C14": ("CAN bindings of every size 57..72, 80, 96, 128, 200 bits with the excess in a scalar, nested struct, array, array of structs or enum at first/middle/last position, and every placement of a str/dynamic array/optional; DBC generate and the can_c generation command must fail and emit nothing for > 64 bits / variable size; geometry of everything emitted",
+            "an exception counts as failing with an error", "explicit-state enumeration around the size limit + geometric invariant on emitted artefacts"),
+    "C15": ("every struct with 2-3 fields (4 in thorough) over representative kinds x EVERY permutation of the declaration order (ids fixed) compared with its id-sorted twin in all back ends: Python codec, packed layout, DBC, generated C frames (gcc), C++ static and dynamic bytes",
+            "CAN back ends on the fixed-size subset <= 64 bits", "exhaustive permutation enumeration, differential oracle"),
+    "C18": ("schemas with 1..4 CAN bindings (payloads 1,7,8,9,33,64 bits and mixed, ids {0,1,100,2047}, bus names of length 1..4, prefix-related buses, long names) through Can{CanStaticSchema} and Can{CanDynamicSchema}: encode == reference frame; decode of every frame and of every frame with the id or one bus character changed",
+            "bindings named after their struct", "explicit-state enumeration of schemas x frames against a reference frame, static/dynamic differential"),
+    "C19": ("for every device (1..3 messages, 4 in thorough; periods from {absent,-1,1,2,3,5}) EVERY call history of length 5 (7 for selected devices in thorough) over the delta alphabet {0,1,P-1,P,P+1,2P,wrap} on the generated C scheduler, one forked process per history; oracle: reference automaton + independent trace invariant + frame contents",
+            "gcc 12; 32-bit wrap exercised through deltas 2^32-3 and a start at 2^32-2", "exhaustive exploration of call histories of the real compiled code (fork per history) against a reference automaton"),
+})
 PENDING = {}
 
 m = {
